@@ -51,14 +51,14 @@ for k in range(8):
         ;;
 esac
 cd "$W" || exit 2
-"$BIN" corpus seeds -runs="$RUNS" -seed="$SEED" -max_len="$MAXLEN" -timeout=30 -rss_limit_mb=6000 -len_control=0 \
+"$BIN" corpus seeds -runs="$RUNS" -seed="$SEED" -max_len="$MAXLEN" -timeout=30 -rss_limit_mb=6000 -len_control=0 -detect_leaks=0 \
     -artifact_prefix="$W/art/" -jobs="$JOBS" -workers="$JOBS" >"$W/campaign.out" 2>&1
 done_lines=$(grep -h "DONE" "$W"/fuzz-*.log 2>/dev/null)
 execs=$(echo "$done_lines" | sed -E 's/^#([0-9]+).*/\1/' | awk '{s+=$1} END {print s+0}')
 cov=$(echo "$done_lines" | sed -E 's/.*cov: ([0-9]+).*/\1/' | sort -n | tail -1)
 corp=$(ls "$W/corpus" | wc -l)
 crashes=$(ls "$W/art" 2>/dev/null | grep -c '^crash-')
-slow=$(ls "$W/art" 2>/dev/null | grep -c -E '^(timeout|oom|slow-unit)-')
+slow=$(ls "$W/art" 2>/dev/null | grep -c -E '^(timeout|oom)-')
 EV="$VERIF_DIR/evidence/$ID.json"
 if [ -f "$EV" ]; then
     python3 - "$EV" "$TARGET" "$JOBS" "$RUNS" "${execs:-0}" "${cov:-0}" "$corp" "$crashes" "$slow" "$SEED" <<'PY'
